@@ -313,7 +313,12 @@ def check_signer_infos(m, content=None):
         if rs is None:
             out.append('bad-signature-encoding')
             continue
-        out.append('ok' if R.verify_rs(f['pub'], e, rs[0], rs[1]) else 'bad-signature')
+        if R.verify_rs(f['pub'], e, rs[0], rs[1]):
+            out.append('ok')
+        elif R.verify_rs(f['pub'], R.sm3(R.compute_z(f['pub']) + base + attrs), rs[0], rs[1]):
+            out.append('ok')          # the GB/T 32918 form with the Z prefix (default ID) is a valid signer's signature as well
+        else:
+            out.append('bad-signature')
     return out
 
 
